@@ -33,6 +33,7 @@ def rules(ctx):
     c135(ctx)
     c136(ctx)
     c137(ctx)
+    c138(ctx)
 
 
 def c13_open_options(ctx):
@@ -212,6 +213,50 @@ def c133(ctx):
     ok = users <= {"lsmtk::verifier::list_mani_fragments", "lsmtk::verifier::list_mani_fragments::{closure#0}"}
     ctx.check(R, "lsmtk", "fragment-path-users", ok, "outside mani only list_mani_fragments names manifest fragment paths: %s" % sorted(users),
               "manifest fragment paths are built in %s" % sorted(users))
+
+
+def c138(ctx):
+    R = "C13.8"
+    ctx.declare(R, "a manifest whose last write failed accepts no further edit: a failed write can leave the first lines of an edit in the file without "
+                   "their separator, and whatever is appended next is read back as part of that edit")
+    pw = [f for f in ctx.prog.fns.values() if f.crate == "mani" and P.field_writes(f, r"mani::Manifest$", "poison")]
+    ctx.floor(R, "functions that record a failed manifest write", len(pw), 1)
+
+    def reads_poison(g):
+        return bool(P.field_reads(g, r"mani::Manifest$", "poison"))
+
+    def honoured(f, pt):
+        for bb, lab, srcs in K.guards(f, pt):
+            for x in srcs:
+                if x["k"] == "field" and x["f"] == "poison":
+                    return True
+                if x["k"] == "call":
+                    for k_ in ctx.prog.targets(x["t"]):
+                        g = ctx.prog.fns.get(k_)
+                        if g is not None and g.crate == "mani" and g not in pw and reads_poison(g):
+                            return True
+        return False
+    n = 0
+    for f in sorted(ctx.prog.fns.values(), key=lambda f: f.key):
+        if f.crate != "mani" or not f.skey.startswith("mani::Manifest::") or "{closure" in f.skey:
+            continue
+        ops = []
+        for pt in P.call_points(f, MANI_FILE_OPS + r"|std::io::Write::write_all$|Write>::write_all$"):
+            t = P.term_at(f, pt)
+            if (callee_skey(t) or "").endswith("OpenOptions::open"):
+                ch = C02.open_option_chain(f, pt)
+                if not (ch.get("write") or ch.get("append") or ch.get("create") or ch.get("create_new") or ch.get("truncate")):
+                    continue
+            ops.append(pt)
+        if not ops or "&mut mani::Manifest" not in f.locals[1]:
+            continue
+        n += 1
+        first = [p_ for p_ in ops if not any(q_ != p_ and not P.order(f, [q_], [p_]) for q_ in ops)] or ops[:1]
+        for pt in first:
+            ctx.check(R, f, "poison-honoured", honoured(f, pt), "the first file operation is taken only when no earlier write has failed",
+                      "%s writes to the manifest without asking whether an earlier write failed (the error is recorded in `poison` and never looked at): "
+                      "the next edit is appended behind a torn one and both are read back as one edit" % f.skey, pt=pt)
+    ctx.floor(R, "manifest methods that write files", n, 2)
 
 
 def c135(ctx):
